@@ -52,3 +52,54 @@ Proof.
     rewrite Ht. exact (theta_prox rho (nth i (fst dq) 0%R) Hrho).
 Qed.
 Print Assumptions C03_code_eigenvalues_positive.
+
+(* ---- the covariance floor graphical_lasso._zero_small_elements and _reconstruct_optimized_matrix AS TRANSLATED
+   (Gen/G_graphical_lasso.v; equivalence with the model's elementwise filter: Proofs/GenEquivGL.v) ---- *)
+From Ticc Require Import Gen.G_graphical_lasso Proofs.GenEquivGL.
+
+Theorem C03_code_floor_is_model : forall (F : Type) (zero : F) (sub : F -> F -> F) (ltb : F -> F -> bool) (of_int : Z -> F),
+  of_int 0%Z = zero ->
+  forall (a : arr2 F) (eps : F) (copy : bool),
+  g_zero_small_elements F sub ltb of_int a eps copy = Ret (arr2_map (zero_small zero sub ltb eps) a).
+Proof. exact g_zero_small_elements_eq. Qed.
+Print Assumptions C03_code_floor_is_model.
+
+Theorem C03_code_reconstruction_is_model : forall (F : Type) (zero : F) (sub : F -> F -> F) (ltb : F -> F -> bool) (of_int : Z -> F),
+  of_int 0%Z = zero ->
+  forall (reinflate : list F -> arr2 F) (eps : F) (v : list F),
+  g_reconstruct_optimized_matrix F sub ltb of_int reinflate (mk_gl_model (mk_gl_args eps)) v
+  = Ret (arr2_map (zero_small zero sub ltb eps) (reinflate v)).
+Proof. exact g_reconstruct_optimized_matrix_eq. Qed.
+Print Assumptions C03_code_reconstruction_is_model.
+
+(* over the reals: the matrix the translated filter returns has the shape of its argument, every entry is the argument's
+   entry or 0, no entry has a magnitude strictly between 0 and a positive eps, and entries of magnitude >= eps are kept *)
+Theorem C03_code_floor : forall (a : arr2 R) (eps : R) (copy : bool),
+  exists out : arr2 R,
+    g_zero_small_elements R Rminus Rltb IZR a eps copy = Ret out /\
+    a_rows out = a_rows a /\ a_cols out = a_cols a /\ length (a_cells out) = length (a_cells a) /\
+    forall i j : nat,
+      let x := nth j (nth i (a_cells a) []) 0%R in
+      let y := nth j (nth i (a_cells out) []) 0%R in
+      (y = 0%R \/ y = x) /\ ((0 < eps)%R -> ~ (0 < Rabs y < eps)%R) /\ ((eps <= Rabs x)%R -> y = x).
+Proof.
+  intros a eps copy. exists (arr2_map (zero_small 0%R Rminus Rltb eps) a).
+  split; [exact (g_zero_small_elements_eq R 0%R Rminus Rltb IZR eq_refl a eps copy)|].
+  unfold arr2_map. cbn [a_rows a_cols a_cells]. rewrite map_length.
+  repeat (split; [reflexivity|]).
+  intros i j.
+  set (x := nth j (nth i (a_cells a) []) 0%R).
+  assert (Hz : zero_small 0%R Rminus Rltb eps 0%R = 0%R).
+  { unfold zero_small. destruct (Rltb 0 eps && Rltb (0 - eps) 0)%bool; reflexivity. }
+  assert (Hy : nth j (nth i (map (map (zero_small 0%R Rminus Rltb eps)) (a_cells a)) []) 0%R = zero_small 0%R Rminus Rltb eps x).
+  { unfold x. clear x. generalize (a_cells a) as cells. intros cells. revert i.
+    induction cells as [|row rows IH]; intros i.
+    - destruct i; destruct j; cbn [map nth]; symmetry; exact Hz.
+    - destruct i as [|i]; cbn [map nth]; [|apply IH].
+      transitivity (nth j (map (zero_small 0%R Rminus Rltb eps) row) (zero_small 0%R Rminus Rltb eps 0%R)).
+      + rewrite Hz. reflexivity.
+      + apply map_nth. }
+  rewrite Hy. destruct (zero_small_R eps x) as [H1 [H2 [H3 _]]]. fold (zero_smallR eps x).
+  repeat split; assumption.
+Qed.
+Print Assumptions C03_code_floor.
